@@ -81,6 +81,10 @@ def histories(tier, seed):
         for calls in H.exhaustive_single(2):
             out.append(H.mk_history("l%d" % n, calls, {"e1": kind}, cfgs=H.cfgs_for(kind, "graphloop")))
             n += 1
+        # the same object set up on a grid, on a graph, on a grid again ... with and without releasing it in between
+        for calls in H.exhaustive_switching(4 if tier == "quick" else 5):
+            out.append(H.mk_history("w%d" % n, calls, {"e1": kind}, cfgs=H.cfgs_mixed(kind)))
+            n += 1
     pairs = [("euler", "euler"), ("euler", "gillespie"), ("gillespie", "tauleap")]
     for k1, k2 in pairs:
         for calls in H.exhaustive_double(d2):
@@ -90,7 +94,7 @@ def histories(tier, seed):
     for i in range(nr1):
         kind = H.KINDS[i % 3]
         out.append(H.mk_history("r%d" % n, H.random_history(rng, rng.randint(8, 40)), {"e1": kind},
-                                cfgs=H.cfgs_for(kind, ("grid", "graph", "grid", "graphloop")[i % 4])))
+                                cfgs=H.cfgs_mixed(kind) if i % 5 == 4 else H.cfgs_for(kind, ("grid", "graph", "grid", "graphloop")[i % 4])))
         n += 1
     for i in range(nr2):
         k1, k2 = rng.choice(H.KINDS), rng.choice(H.KINDS)
